@@ -107,7 +107,13 @@ func (w *World) VerifyFunc(c *Contract, prop string) (*Unit, error) {
 	o := u.oblige("cover", f.fname, "true", "true", c.File+":"+fmt.Sprint(c.Line), "preconditions satisfiable")
 	o.Cover = true
 	f.run(heap, "true")
-	// a nopanic function must not leave exceptionally (obligations were emitted at each site)
+	// vacuity guard: the assumptions collected on the way (callee postconditions, external
+	// contracts, invariants) must leave some return reachable, or every postcondition would hold
+	// trivially. Individual returns may well be dead under the contracts (defensive error paths).
+	if len(f.retConds) > 0 && len(c.ClausesOf("ensures")) > 0 {
+		o := u.oblige("cover.returns", f.fname, "true", or(f.retConds...), c.File+":"+fmt.Sprint(c.Line), "some return is reachable under the assumptions made on the way")
+		o.Cover = true
+	}
 	return u, nil
 }
 
